@@ -11,7 +11,8 @@ from .common import *
 EVIDENCE = dict(assumptions=[
     'retained data: after any protocol-order prefix of revocations (top m commitment indices, SHA-256 uninterpreted, symbolic seed) every revoked secret is recoverable from the counterparty-secret store',
     'kernel only (narrow): justice claims are re-issued with adequate, monotonically rising fees and on an urgency schedule tied to the counterparty CSV height; revoked outputs are classified malleable so that fee bumping applies',
-    'detection of the revoked transaction, secret derivation (SHA-256), package construction, witness / script validity, HTLC-transaction follow-up, reload and block-delivery styles are outside the claim',
+    'C06.c: one iteration of the loop of check_spend_counterparty_transaction that queues a justice claim per HTLC output of a revoked commitment; keys, scripts, cloning, the package constructors and the transaction\'s output vector are stubs',
+    'detection of the revoked transaction, secret derivation (SHA-256), the balance-output claim, witness / script validity, HTLC-transaction follow-up, reload and block-delivery styles are outside the claim',
     'transaction weight ranges over a stated finite set; inputs <= 21e14 sat; fee estimator = arbitrary u32'])
 
 
@@ -24,6 +25,7 @@ def run(S):
     honest_sequence(S, D, 'C06.a.secrets', 8 if S.tier == 'quick' else 32)
     revoked_classification(S, D)
     claimed_amounts(S, D)
+    revoked_htlc_claims(S, D)
     C07.fee_from_spent(S, D, W)
     C07.bump(S, D, W)
     C07.locktime_and_output(S, D, W)
@@ -98,3 +100,138 @@ def claimed_amounts(S, D):
         z3.Implies(kind == 3, am.t == htlc_amt('CounterpartyReceivedHTLCOutput') / 1000)),
         'the amount a package accounts for each counterparty HTLC input is the on-chain value of that output (floor(msat/1000)); for revoked HTLC inputs it is the amount stored at construction')
     S.no_panic('C06.a.amounts_nopanic', E, [z3.Or(kind == 0, kind == 1, kind == 2, kind == 3)], 'total for revoked / counterparty HTLC inputs')
+
+
+def revoked_htlc_claims(S, D):
+    """C06.c: ChannelMonitorImpl::check_spend_counterparty_transaction, the loop that turns the HTLC outputs of a
+    REVOKED counterparty commitment into justice claims - one iteration from an arbitrary loop-head state (any number
+    of HTLCs / packages before it). Keys, scripts, cloning, the package constructors and the output vector are stubs."""
+    import re
+    ids = ['C06.c.every_htlc_output_claimed', 'C06.c.dust_skipped', 'C06.c.corrupt_data_stops', 'C06.c.nopanic', 'C06.c.witness', 'C06.c.validate']
+    if all(S._skip(o) for o in ids):
+        return
+    f = S.fn('check_spend_counterparty_transaction')
+    E = S.engine(unwind=1)
+    mem = {}
+    args = []
+    for n, t in f.params:
+        args.append(E.sym('a%d' % n, t, mem) if t.startswith('&') or t in ('u32', 'u64') or 'Txid' in t else X.Opaque('arg%d' % n))
+    run = X.FnRun(E, f, args, True, mem)
+    succ, rpo, back, encl = run.analyse_cfg()
+    head = None
+    for h in sorted({h for (u, h) in back}):
+        body = [b for b in rpo if h in encl[b]]
+        if any(f.blocks[b][1][0] == 'call' and 'RevokedHTLCOutput::build' in str(f.blocks[b][1][2]) for b in body):
+            head = h
+    if head is None:
+        raise X.Unsupported('revoked-HTLC claim loop not found in check_spend_counterparty_transaction')
+    pair = E.sym('entry', '&(ln::chan_utils::HTLCOutputInCommitment, std::option::Option<std::boxed::Box<ln::channelmanager::HTLCSource>>)', mem)
+    n_out, out_val = E.sym('tx.n_outputs', 'usize'), E.sym('tx.output_value_sat', 'u64')
+    E.assume(n_out.t <= 1 << 32)
+    built, pushed, pkgs = [], [], []
+
+    def h_next(E_, m, func, argv, guard, mem_, dty, caller):
+        return X.En('Option', 1, {1: [pair]})
+
+    def h_index(E_, m, func, argv, guard, mem_, dty, caller):
+        E.panic(z3.And(X.zbool(guard), argv[1].t >= n_out.t), 'index out of bounds', caller.fn.name)
+        c = E.new_cell()
+        mem_[c] = X.Adt('TxOut', {0: X.Adt('Amount', {}, base='outamt')})
+        return X.Ref(c)
+
+    def amount_sat(v, mem_):
+        while isinstance(v, X.Ref):
+            v = E.read_path(mem_[v.cell], v.path, mem_, True, 'amt')
+        if getattr(v, 'base', None) == 'outamt':
+            return out_val.t
+        if isinstance(v, X.Adt) and 0 in v.fs and isinstance(v.fs[0], X.I):
+            return v.fs[0].t
+        if isinstance(v, X.I):
+            return v.t
+        if isinstance(v, X.Adt) and v.base is not None:
+            return E.sym(v.base + '.sat', 'u64').t
+        raise X.Unsupported('amount of %r' % (v,))
+
+    def h_amount_ne(E_, m, func, argv, guard, mem_, dty, caller):
+        r = amount_sat(argv[0], mem_) == amount_sat(argv[1], mem_)
+        return X.B(z3.Not(r) if m.group(1) == 'ne' else r)
+
+    def h_clone(E_, m, func, argv, guard, mem_, dty, caller):
+        v = argv[0]
+        while isinstance(v, X.Ref):
+            v = E.read_path(mem_[v.cell], v.path, mem_, guard, 'clone')
+        return v
+
+    def h_build(E_, m, func, argv, guard, mem_, dty, caller):
+        built.append((X.zbool(guard), argv[2]))
+        return X.Adt('RevokedHTLCOutput', {0: argv[2]}, base='revk%d' % len(built))
+
+    def h_pkg(E_, m, func, argv, guard, mem_, dty, caller):
+        pkgs.append((X.zbool(guard), argv[0], argv[1], argv[2], argv[3]))
+        return X.Adt('PackageTemplate', {}, base='pkg%d' % len(pkgs))
+
+    def h_push(E_, m, func, argv, guard, mem_, dty, caller):
+        pushed.append((X.zbool(guard), argv[1]))
+        return X.UNIT
+    for rx, h in [
+        (r'slice::Iter<.*HTLCOutputInCommitment.*> as Iterator>::next$', h_next),
+        (r'Vec::<(?:bitcoin::)?TxOut>::len$', lambda *a: n_out),
+        (r'Vec<(?:bitcoin::)?TxOut> as (?:std::ops::)?Index<usize>>::index$', h_index),
+        (r'Amount as PartialEq>::(eq|ne)$', h_amount_ne),
+        (r'(?:HTLCOutputInCommitment|ChannelTransactionParameters) as Clone>::clone$', h_clone),
+        (r'RevokedHTLCOutput::build$', h_build),
+        (r'PackageTemplate::build_package$', h_pkg),
+        (r'Vec::<(?:package::)?PackageTemplate>::push$', h_push),
+    ]:
+        E.models.insert(0, (re.compile(rx), h))
+    E.depth += 1
+    rv, ret, m2 = run.run(start_bb=head)
+    E.depth -= 1
+    mem.update(m2)
+    cont = X.zbool(E.merge_mem(run.cut_states)[0]) if run.cut_states else z3.BoolVal(False)
+    returns = X.zbool(ret) if rv is not None else z3.BoolVal(False)
+    HO = D.struct_fields('HTLCOutputInCommitment')
+    hv = E.read_path(mem[pair.cell], (('f', 0, 'ln::chan_utils::HTLCOutputInCommitment'),), mem, True, 'spec')
+    rdh = lambda nm, ty: E.read_path(hv, (('f', HO.index(nm), ty),), mem, True, 'spec')
+    offered = X.zbool(rdh('offered', 'bool').t)
+    cltv = rdh('cltv_expiry', 'u32').t
+    amt = rdh('amount_msat', 'u64').t
+    toi = rdh('transaction_output_index', 'Option<u32>')
+    has_idx = X.zint(toi.d) == 1
+    idx = E.en_payload(toi, 'Some', 1, 0, 'u32', mem, 'spec').t
+    height = args[3].t
+    consistent = z3.And(idx < n_out.t, out_val.t == amt / 1000)
+    n_push = sum([z3.If(g, 1, 0) for g, _ in pushed]) if pushed else z3.IntVal(0)
+    pre = [amt <= 21_000_000 * 100_000_000 * 1000, height < (1 << 31), cltv < 500000000]
+    if len(pkgs) != 1 or len(pushed) != 1 or len(built) != 1:
+        raise X.Unsupported('expected exactly one package construction in the loop body (found %d build_package, %d push, %d RevokedHTLCOutput::build); %s' % (len(pkgs), len(pushed), len(built), [w for g_, w in E.unsupported][:4]))
+    g_pkg, p_txid, p_vout, p_data, p_height = pkgs[0]
+
+    def ident(v):
+        if getattr(v, 'alt', None) is not None:
+            c_, x, y = v.alt
+            return z3.If(X.zbool(c_), ident(x), ident(y))
+        return z3.Int('ident.' + (getattr(v, 'base', None) or 'unknown%d' % next(E.nfresh)))
+    same_txid = ident(p_txid) == ident(mem[args[1].cell] if isinstance(args[1], X.Ref) else args[1])
+    data_is_this_htlc = ident(built[0][1]) == ident(hv)
+    pushed_is_pkg = ident(pushed[0][1]) == z3.Int('ident.pkg1')
+    panic = z3.Or(*[X.zbool(p[0]) for p in E.panics]) if E.panics else False
+
+    def line_fn(v):
+        hi, off = v[0], v[1]
+        return '%d %d' % (hi, off)
+    # the live scenario always has stored HTLC data consistent with the transaction (third argument fixed to 1)
+    b = Binding('revoked_htlc_claim_probe', [z3.If(has_idx, 1, 0), z3.If(offered, 1, 0), z3.If(z3.Or(z3.Not(has_idx), consistent), 1, 0)], [z3.If(n_push == 1, 1, 0)],
+                line_fn=line_fn, which='oracle_tu', panic=panic, domain=[(0, 1), (0, 1), (1, 1)])
+    S.prove(ids[0], E, pre + [has_idx, consistent],
+            z3.And(cont, z3.Not(returns), n_push == 1, pushed[0][0], g_pkg, p_vout.t == idx, same_txid, data_is_this_htlc, pushed_is_pkg,
+                   p_height.t == z3.If(offered, cltv, height)),
+            'every HTLC of a revoked counterparty commitment that has an output in the transaction gets exactly one justice claim, for that outpoint (commitment txid, its output index), built from that HTLC, with the counterparty-spendable height the re-bump timer needs (its CLTV expiry if the cheater offered it, the current height - spendable right away with the preimage - if it received it); the scan then moves on to the next HTLC',
+            [b], bounds='one loop iteration from an arbitrary loop-head state (any number of HTLCs and of claims queued before), amounts <= 21e14 sat, expiries < 500000000')
+    S.prove(ids[1], E, pre + [z3.Not(has_idx)], z3.And(cont, z3.Not(returns), n_push == 0),
+            'an HTLC without an output (dust: folded into the fee, nothing to claim) queues nothing and the scan moves on', [b])
+    S.prove(ids[2], E, pre + [has_idx, z3.Not(consistent)], z3.And(returns, z3.Not(cont), n_push == 0),
+            'stored HTLC data that does not match the transaction (index past the outputs, or a different output value) stops the scan with what was queued so far instead of building a claim on a wrong output', [])
+    S.no_panic(ids[3], E, pre, 'no out-of-bounds index into the outputs, no overflow', [b])
+    S.witness(ids[4], E, pre + [has_idx, consistent, z3.Not(offered)], cont)
+    S.validate(ids[5], E, b, n=4, extra_vectors=[(1, 1, 1), (1, 0, 1), (0, 1, 1), (0, 0, 1)])
